@@ -629,8 +629,8 @@ def run(ck):
                           "pres": presentations(prog, rng, bool(prog.get("temporal"))), "repeat": 8,
                           "features": prog.get("features", []) + ["corpus"]})
     ncorpus = len(items)
-    nplain = ck.n(20, 260)
-    ntemp = ck.n(28, 260)
+    nplain = ck.n(20, 400)
+    ntemp = ck.n(28, 450)
     for _ in range(nplain):
         prog = dc.gen_program(rng, big=(not ck.quick) and rng.random() < 0.4)
         items.append({"origin": "random", "prog": prog, "temporal": False, "pres": presentations(prog, rng),
@@ -639,7 +639,7 @@ def run(ck):
         prog = gen_temporal(rng)
         items.append({"origin": "random-temporal", "prog": prog, "temporal": True,
                       "pres": presentations(prog, rng, True), "features": prog["features"]})
-    nagg = ck.n(8, 100)
+    nagg = ck.n(8, 150)
     for _ in range(nagg):
         prog = gen_aggregating(rng)
         items.append({"origin": "random-aggregate", "prog": prog, "temporal": False, "pres": presentations(prog, rng),
